@@ -1702,6 +1702,25 @@ func fanoutErrorType(c *Ctx, rule string, fn *ssa.Function) {
 				}
 				return true
 			}
+			// a function with a defer returns through result cells: every value stored there
+			if ld, ok := v.(*ssa.UnOp); ok && ld.Op == token.MUL && d < 4 {
+				if al, ok := ld.X.(*ssa.Alloc); ok && al.Referrers() != nil {
+					n := 0
+					for _, ref := range *al.Referrers() {
+						switch x := ref.(type) {
+						case *ssa.Store:
+							if x.Addr != ssa.Value(al) || !isBE(x.Val, d+1) {
+								return false
+							}
+							n++
+						case *ssa.UnOp, *ssa.DebugRef:
+						default:
+							return false
+						}
+					}
+					return n > 0
+				}
+			}
 			return false
 		}
 		if isBE(v, 0) {
@@ -1752,7 +1771,13 @@ func ruleC16Ctl(c *Ctx) {
 	if fn == nil {
 		return
 	}
+	// the parsed request size: with or without the "empty string counts as 0" default
 	sz := "phi{0 | github.com/docker/go-units.RAMInBytes($2)#0}"
+	for _, s := range StoresTo(fn, "Controller", "size") {
+		if v := NewRenderer(fn).V(s.(*ssa.Store).Val); v == "github.com/docker/go-units.RAMInBytes($2)#0" {
+			sz = v
+		}
+	}
 	c.Guard(rule, fn, CallsTo(fn, fRepl+"Resize"), "backend.Resize", lockOrUnlock,
 		needWLock("controller write lock taken"),
 		atom("volume name matches", "+$0.Name -$1 ==0"),
